@@ -2,30 +2,6 @@
 // decoder state on ANY remaining bytes) and the real functions proved equal to them (which includes: no overflow,
 // no out-of-bounds access, termination).
 
-/// consuming a prefix of a suffix is consuming a prefix
-pub proof fn lemma_suffix_trans(a: Seq<u8>, b: Seq<u8>)
-    requires
-        suffix_of(a, b),
-    ensures
-        forall|c: Seq<u8>| #[trigger] suffix_of(b, c) ==> suffix_of(a, c),
-{
-    let j = choose|j: nat| j <= a.len() && b == #[trigger] a.skip(j as int);
-    assert forall|c: Seq<u8>| #[trigger] suffix_of(b, c) implies suffix_of(a, c) by {
-        let i = choose|i: nat| i <= b.len() && c == #[trigger] b.skip(i as int);
-        assert(a.skip(j as int).skip(i as int) =~= a.skip((j + i) as int));
-    }
-}
-
-pub proof fn lemma_suffix_skip(a: Seq<u8>, k: nat)
-    requires
-        k <= a.len(),
-    ensures
-        suffix_of(a, a.skip(k as int)),
-        suffix_of(a, a),
-{
-    assert(a.skip(0) =~= a);
-}
-
 /// std `i32::wrapping_add` as arithmetic
 pub open spec fn wadd_i32(a: i32, b: i32) -> i32 {
     if a + b > i32::MAX {
